@@ -80,10 +80,10 @@ func (p IP6) SetPayload(b []byte, nextHeader uint8) IP6 {
 }
 
 func (p IP6) AppendPayload(b []byte, nextHeader uint8) (IP6, error) {
-	if b == nil || cap(p)-len(p) < len(b) {
+	if b == nil || cap(p)-IP6HeaderLen < len(b) {
 		return nil, ErrPayloadTooBig
 	}
-	p = p[:len(p)+len(b)] // change slice in case slice is less than 40
+	p = p[:IP6HeaderLen+len(b)] // change slice in case slice is less than 40
 	copy(p.Payload(), b)
 	binary.BigEndian.PutUint16(p[4:6], uint16(len(b)))
 	p[6] = nextHeader
